@@ -12,7 +12,7 @@ import (
 
 // C05 - CSV output parses back, under RFC 4180 quoting, to exactly the table.
 
-const c05Fam = gen.FAscii | gen.FCSV | gen.FNewline | gen.FCR | gen.FInvalid | gen.FWide | gen.FNUL | gen.FHTML
+const c05Fam = gen.FAscii | gen.FCSV | gen.FNewline | gen.FCR | gen.FInvalid | gen.FWide | gen.FNUL | gen.FHTML | gen.FEdge
 
 func c05Table(r *gen.R) gen.TableSpec {
 	return r.Table(gen.TableOpts{MaxCols: 5, MaxRows: 6, ZeroHeaderOK: true, MinCols: 0, Noise: gen.NoiseSkipable | gen.NoiseAlign,
